@@ -16,6 +16,9 @@ def python_evaluate(s: str) -> int:
     try:
         val = eval(s)
         if isinstance(val, int):
+            # An integer too large to be converted to text cannot be presented in messages
+            # (int -> str conversion is limited; raises ValueError)
+            str(val)
             return val
         else:
             raise NotAnIntegerException(s)
